@@ -42,6 +42,11 @@ pub fn library() -> Library {
     }
     let outer = PkgSpec::new("f:outer", None, &[("inner", f0.clone())], &[("out", f0.clone())]);
     lib.insert(("f:outer".into(), None), outer.to_bytes());
+    // two imports, so that another argument form can precede the argument holding a nested `new`
+    let outer2 = PkgSpec::new("f:outer2", None, &[("k", f0.clone()), ("inner", f0.clone())], &[("out", f0.clone())]);
+    lib.insert(("f:outer2".into(), None), outer2.to_bytes());
+    let kp = PkgSpec::new("f:kp", None, &[], &[("k", f0.clone())]);
+    lib.insert(("f:kp".into(), None), kp.to_bytes());
     lib
 }
 
@@ -71,6 +76,11 @@ pub const POSITIONS: &[Position] = &[
     Position { name: "new-under-postfix", kind: "comp", template: "let q{n} = (new {P}{V} { ... }).run;" },
     Position { name: "new-in-export", kind: "comp", template: "export new {P}{V} { ... }.run as r{n};" },
     Position { name: "new-nested-twice", kind: "comp", template: "let s{n} = (new f:outer { inner: ((new {P}{V} { ... })).run });" },
+    // a nested `new` in a named argument that FOLLOWS another argument form
+    Position { name: "new-after-spread", kind: "comp", template: "let kp{n} = new f:kp { };\nlet v{n} = new f:outer2 { ...kp{n}, inner: new {P}{V} { ... }.run };" },
+    Position { name: "new-after-named", kind: "comp", template: "let kq{n} = new f:kp { };\nlet w{n} = new f:outer2 { k: kq{n}.k, \"inner\": new {P}{V} { ... }.run };" },
+    Position { name: "new-after-inferred", kind: "comp", template: "let k = new f:kp { }.k;\nlet z{n} = new f:outer2 { k, inner: new {P}{V} { ... }.run };" },
+    Position { name: "new-before-spread-and-fill", kind: "comp", template: "let kr{n} = new f:kp { };\nlet y{n} = new f:outer2 { inner: new {P}{V} { ... }.run, ...kr{n}, ... };" },
 ];
 
 #[derive(Clone, Debug)]
